@@ -11,6 +11,70 @@ from prop import SchedProp  # noqa: E402
 import _s3set  # noqa: E402
 
 
+_XFLOW = '''[scheduler]
+    allow implicit tasks = True
+[scheduling]
+    cycling mode = integer
+    initial cycle point = 1
+    final cycle point = 1
+    runahead limit = P1
+    [[graph]]
+        P1 = """
+%s
+        """
+[runtime]
+    [[root]]
+        [[[simulation]]]
+            default run length = PT0S
+    [[a]]
+%s
+'''
+
+
+def xtrig_cases():
+    """hand-written histories of a task that waits behind a retry xtrigger (`_cylc_retry_<point>_<name>` after a failed
+    job, `_cylc_submit_retry_<point>_<name>` after a failed submission, retry delays of one hour) and a `cylc set
+    --pre=xtrigger/...` command"""
+    from _s3set import S, L, RESTART, sub, msg, run_ok
+
+    def xcase(cid, ops, exe='PT1H', subm=None, graph='a => b'):
+        g = '\n'.join('            ' + ln.strip() for ln in graph.split(';'))
+        cfg = ''
+        if exe:
+            cfg += f'        execution retry delays = {exe}\n'
+        if subm:
+            cfg += f'        submission retry delays = {subm}\n'
+        return {'id': cid, 'flow': _XFLOW % (g, cfg), 'seed': 0, 'opts': {}, 'policy': {}, 'ops': ops, 'kind': 'corpus'}
+
+    fail1 = [L, sub('1/a'), msg('1/a', 'started'), msg('1/a', 'failed'), L, L]
+    subfail1 = [L, sub('1/a', ok=False), L, L]
+    EX, SB = 'xtrigger/_cylc_retry_1_a', 'xtrigger/_cylc_submit_retry_1_a'
+    return [
+        # the carried label, `xtrigger/all`: the retry is submitted by the next main loop
+        xcase('s3x-exec-named', [*fail1, S('1/a', pre=[EX]), L, *run_ok('1/a', 2), L, L]),
+        xcase('s3x-exec-named-suffix', [*fail1, S('1/a', pre=[EX + ':succeeded']), L, *run_ok('1/a', 2), L, L]),
+        xcase('s3x-exec-all', [*fail1, S('1/a', pre=['xtrigger/all']), L, *run_ok('1/a', 2), L, L]),
+        xcase('s3x-sub-named', [*subfail1, S('1/a', pre=[SB]), L, *run_ok('1/a', 2), L, L], exe=None, subm='PT1H'),
+        xcase('s3x-sub-all', [*subfail1, S('1/a', pre=['xtrigger/all']), L, *run_ok('1/a', 2), L, L], exe=None, subm='PT1H'),
+        # `--pre=all` means the task prerequisites; labels the task does not carry; then the carried one among others
+        xcase('s3x-not-carried', [*fail1, S('1/a', pre=['all']), L, S('1/a', pre=[SB]), L, S('1/a', pre=['xtrigger/nope']), L,
+                                  S('1/a', pre=['xtrigger/nope', EX, '1/a:succeeded']), L, *run_ok('1/a', 2), L, L]),
+        # both retry xtriggers on one proxy: the submission retry first, the execution retry next
+        xcase('s3x-both', [*subfail1, S('1/a', pre=[SB]), L, sub('1/a', 2), msg('1/a', 'started', 2), msg('1/a', 'failed', 2),
+                           L, L, S('1/a', pre=[SB]), L, S('1/a', pre=[EX]), L, *run_ok('1/a', 3), L, L], subm='PT1H'),
+        # two retries: the xtrigger is reset by the second failure
+        xcase('s3x-twice', [*fail1, S('1/a', pre=[EX]), L, sub('1/a', 2), msg('1/a', 'started', 2), msg('1/a', 'failed', 2),
+                            L, L, S('1/a', pre=['xtrigger/all']), L, *run_ok('1/a', 3), L, L], exe='2*PT1H'),
+        # a task with a prerequisite and a retry xtrigger in flow 2; outputs set on a waiting retry; zero delays
+        xcase('s3x-flow', [*fail1, S('1/a', pre=[EX], flow=['2']), L, *run_ok('1/a', 2), L, L]),
+        xcase('s3x-set-out', [*fail1, S('1/a', out=['succeeded']), L, L]),
+        xcase('s3x-zero-delay', [*fail1, *run_ok('1/a', 2), L, L], exe='PT0S'),
+        xcase('s3x-restart', [*fail1, *RESTART, L, L]),
+        # not in the pool: `xtrigger/all` spawns it, a label does not
+        xcase('s3x-inactive', [S('1/b', pre=[EX]), L, S('1/b', pre=['xtrigger/all']), L, L]),
+    ]
+
+
 class C29(SchedProp):
     id = 'C29'
     props_modules = ['CylcModel.Props.C29']
@@ -18,6 +82,14 @@ class C29(SchedProp):
         'CylcModel.C29.set_prereqs_keeps_atoms',
         'CylcModel.C29.set_prereqs_only_requested',
         'CylcModel.C29.set_pre_pooled',
+        'CylcModel.C29.valid_xtrigs_are_carried',
+        'CylcModel.C29.carried_xtrigs_are_valid',
+        'CylcModel.C29.set_xtrigs_keeps_labels',
+        'CylcModel.C29.set_xtrigs_pooled',
+        'CylcModel.C29.set_xtrigs_all',
+        'CylcModel.C29.set_xtrig_named_exec',
+        'CylcModel.C29.set_xtrig_named_sub',
+        'CylcModel.C29.long_retry_waits',
         'CylcModel.C29.valid_prereqs_are_own',
         'CylcModel.C29.set_no_valid_prereq_noop',
         'CylcModel.C29.all_prereqs_set_satisfied',
@@ -38,8 +110,20 @@ class C29(SchedProp):
         'CylcModel.C29.set_submit_failed',
     ]
     statement_note = (
-        'partial: proofs over the Sched3Set model (scheduler core + flows + `cylc set`, a line-by-line port) for all instance '
-        'graphs and all states. PROVED - prerequisites: force_satisfy keeps every prerequisite\'s atoms and expression and '
+        'partial: proofs over the Sched3X model (Sched3Set - scheduler core + flows + `cylc set`, a line-by-line port - plus '
+        'the retry xtriggers a proxy carries) for all instance graphs and all states. PROVED - xtrigger prerequisites '
+        '(`--pre=xtrigger/<label>`): the requested labels that count are exactly `all` and the labels the live proxy carries, '
+        'the dynamic retry xtriggers included - none is rejected, none is invented (valid_xtrigs_are_carried, '
+        'carried_xtrigs_are_valid, set_xtrigs_keeps_labels); on a pooled task, through the flow merge, each carried retry '
+        'xtrigger is satisfied afterwards iff it was before, or was named, or xtrigger/all was given (set_xtrigs_pooled); '
+        'with xtrigger/all, or with the one unsatisfied label named, the proxy waits for no retry any more '
+        '(set_xtrigs_all, set_xtrig_named_exec, set_xtrig_named_sub) and is then launched by the next sweep + submit step '
+        '(ready_task_is_launched, whose readiness hypothesis now includes the xtriggers); an unsatisfied retry xtrigger of '
+        'non-zero delay is not satisfied by the clock check (long_retry_waits). NOT PROVED for xtriggers: graph-declared '
+        '(clock / custom function) xtriggers are not modelled at all - only the two retry xtriggers per proxy, with delays '
+        'abstracted to zero / never-over-within-the-run; that force_satisfy_all runs when the task begins submission and '
+        'that a restart drops the retry xtriggers are modelled and tied by the correspondence, not stated as theorems. '
+        'PROVED - prerequisites: force_satisfy keeps every prerequisite\'s atoms and expression and '
         'satisfies exactly the requested atoms (all with --pre=all), nothing else (set_prereqs_keeps_atoms, '
         'set_prereqs_only_requested); the requested atoms that count are those among the instance\'s graph prerequisites '
         '(valid_prereqs_are_own); `cylc set --pre` on a pooled task leaves it pooled with exactly these prerequisites changed, '
@@ -65,8 +149,9 @@ class C29(SchedProp):
         'sweep + submit (ready_task_is_launched proves that the queue-if-ready sweep followed by the release/submit step '
         'launches a ready task under its next submit number; that the runahead / shutdown prelude of the same loop keeps '
         'the task ready is not proved).')
-    technique = ('line-by-line Lean port of `cylc set` + flows into the scheduler model (Sched3Set), trace correspondence with '
-                 'the real Scheduler (pool, flows, flow-wait, committed task_states/task_outputs rows after every operation), '
+    technique = ('line-by-line Lean port of `cylc set` + flows + retry xtriggers into the scheduler model (Sched3X, a copy of '
+                 'Sched3Set grown by the xtriggers a proxy carries), trace correspondence with '
+                 'the real Scheduler (pool, flows, flow-wait, xtriggers of every pooled task, committed task_states/task_outputs rows after every operation), '
                  'a monitor judge on the observed traces, lemmas per primitive')
     trusted = [
         'SQLite (the committed rows of task_states / task_outputs are read back after every operation; INSERT OR REPLACE, '
@@ -76,7 +161,8 @@ class C29(SchedProp):
         'the runner instrumentation of process_message / TaskPool.remove (observation keys msgs, removed)',
     ]
     unmodelled = SchedProp.unmodelled[:2] + [
-        'datetime cycling, xtriggers (`--pre=xtrigger/...`), `--out=skip`, clock-expiry, queue limits, task globs / several '
+        'datetime cycling, graph-declared xtriggers (the dynamic retry xtriggers are modelled; `--pre=xtrigger/...` is '
+        'generated on them), retry delays other than PT0S / PT1H (a non-zero delay is never over within a run), `--out=skip`, clock-expiry, queue limits, task globs / several '
         'task ids in one `cylc set` command, `cylc set` with the default flow while no pooled task has a flow (falls back '
         'to time stamps in the DB), cylc trigger / remove / reload',
     ]
@@ -84,13 +170,18 @@ class C29(SchedProp):
             'optional/custom outputs, suicide and absolute triggers, sequential tasks, runahead P0-P3) driven through the real '
             'Scheduler by a seeded adaptive schedule of main loops, submit results and job messages mixed (p = 0.1-0.25 per '
             'step) with `cylc set` commands: outputs (none given / 1-3 standard or custom outputs / unknown names) or '
-            'prerequisites (all / 1-2 of the task\'s / not of the task) on one pooled or not-yet-spawned instance in any state, '
+            'prerequisites (all / 1-2 of the task\'s / not of the task / xtrigger prerequisites: the retry xtrigger the target '
+            'carries, xtrigger/all, a retry label it does not carry, an unknown label - alone or mixed with task '
+            'prerequisites; retry delays are PT1H with p = 0.6 per line so that failed tasks wait behind their retry '
+            'xtrigger, and such tasks are preferred targets) on one pooled or not-yet-spawned instance in any state, '
             'with --flow default / new / none / numbers and --wait, plus hold, release, hold point, pause, stop + restart '
             '(kind set: jobs complete their required outputs; kind setany: failures, submit failures, missing outputs, '
-            'duplicate / stale / out-of-order messages); 17 hand-written histories (no-flow tasks, flow wait, re-run in a new '
-            'flow, transient parents, joins); non-trivial = distinct class (kind, ending, which set variants occurred on '
+            'duplicate / stale / out-of-order messages); 30 hand-written histories (no-flow tasks, flow wait, re-run in a new '
+            'flow, transient parents, joins; 13 of a task waiting behind an execution / submission retry xtrigger and '
+            '`cylc set --pre=xtrigger/<label>`, xtrigger/all, all, labels not carried, both xtriggers, restart); non-trivial = distinct class (kind, ending, which set variants occurred on '
             'pooled / inactive targets, merges, flow-wait, restart with several flows) per distinct case')
     kinds = ('set', 'setany')
+    gen_opts = {'xtrig': True}
     n_quick = 48
     n_thorough = 720
 
@@ -98,7 +189,7 @@ class C29(SchedProp):
         return _s3set.translate_flags()
 
     def corpus(self):
-        return _s3set.corpus_cases()
+        return _s3set.corpus_cases() + xtrig_cases()
 
     def impl_batch(self, inputs):
         return _s3set.retry_flakes(sprop.run_workers, inputs, _s3set.run_robust(sprop.run_workers, inputs, self.workers))
@@ -124,6 +215,12 @@ class C29(SchedProp):
                 p, n = a['tasks'][0].split('/')
                 pooled = any((t['p'], t['n']) == (int(p), n) for t in obs[k]['pool'])
                 fl = a.get('flow') or []
+                pres = a.get('prerequisites') or []
+                if any(q.startswith('xtrigger/') for q in pres):
+                    unsat = [x[2] for x in obs[k].get('xtr', []) if (x[0], x[1]) == (int(p), n) and not x[3]]
+                    named = [q.split('/', 1)[1].split(':')[0] for q in pres if q.startswith('xtrigger/')]
+                    seen.add('xpre' + ('-hit' if any(q in unsat or (q == 'all' and named == ['all']) for q in named) and unsat
+                                       else '-wait' if unsat else ''))
                 seen.add(('pre' if a.get('prerequisites') else 'out') + ('P' if pooled else 'I')
                          + ('' if not fl else '+' + (fl[0] if fl[0] in ('new', 'none') else 'n'))
                          + ('w' if a.get('flow_wait') else ''))
